@@ -1,5 +1,7 @@
 //! jbharness — runs the real jbonsai code (path dependency on /repo, current working tree) on
 //! generated cases and writes one protocol line per case for the Lean driver.
+mod c02;
+mod c08;
 mod c20;
 mod util;
 
@@ -28,6 +30,9 @@ fn main() {
         i += 1;
     }
     match prop {
+        "C02" => c02::gen(seed, thorough),
+        "C08" => c08::gen_c08(seed, thorough),
+        "C09" => c08::gen_c09(seed, thorough),
         "C20" => c20::gen(seed, thorough),
         _ => {
             eprintln!("unknown property {}", prop);
